@@ -91,3 +91,28 @@ def by_activity(log, end_seq):
             break
         per.setdefault(e[1], []).append(e)
     return per
+
+
+def foreign_exception(log, end_seq):
+    """First log entry showing an exception that neither the program raised nor belongs to usim's documented
+    signals/outcomes (payload kind 'other', also inside a Concurrent): the library failed on its own, even if a
+    generated `catch` block or scope swallowed it afterwards."""
+    def has_other(d):
+        if not isinstance(d, (tuple, list)) or not d:
+            return None
+        if d[0] == 'other':
+            return d
+        if d[0] == 'conc':
+            for c in d[1]:
+                r = has_other(c)
+                if r:
+                    return r
+        return None
+    for e in log:
+        if e[0] > end_seq:
+            break
+        if e[3] in ('exc', 'body_exc', 'leave', 'got_exc', 'cleanup_begin'):
+            r = has_other(e[5])
+            if r:
+                return e, r
+    return None
